@@ -11,7 +11,25 @@ NOTE_COMMON = ("Trusted: the gosym translation of go/ssa (and of the amd64 subse
 
 CLAIMS = {
  # id: (level text, design ref, extra note)
+ "C01": ("One store operation from an ARBITRARY shard state (symbolic keys, conflicts, expirations) plus get for an arbitrary probe is executed symbolically and the owner/conflict clauses are discharged for all values; bursts of client calls on keys engineered to share the primary hash are run with the applier as an executor thread under every interleaving (DPOR); a two-client race (overwrite vs Del+Set of a colliding key) is explored with a pre-emption bound; KeyToHash is checked for every key kind with the runtime hashes as uninterpreted functions.", "§4 C01", ""),
+ "C02": ("Every Get in bursts of Set/overwrite/Del/Clear with evictions and rejections (arbitrary sketch contents) is checked, under every interleaving with the applier, against the set of values already handed to OnExit when the Get started; Update/Del/Clear of a shard are shown to return exactly what they detach from an arbitrary shard state.", "§4 C02", ""),
+ "C03": ("defaultPolicy.Add/Del/Update/Clear/UpdateMaxCost are executed from an ARBITRARY policy state (symbolic residents, costs, MaxCost, and every frequency assignment through an uninterpreted estimate function) and the accounting invariant, Cap identity, 'added implies fits' and 'too big is rejected' are discharged for all values and all enumeration orders of the sampling map; bursts against the real cache check RemainingCost after Wait.", "§4 C03", ""),
+ "C04": ("Bursts of Set/Del/Get/Wait/Clear followed by Clear or Close, with a 1..2-item write buffer (drops), MaxCost 1..2 and arbitrary sketch contents (admission, rejection, eviction), are run under every interleaving with the applier; per-value callback counters and the callback order are asserted afterwards (exactly one OnExit per accepted value, none for refused ones, OnEvict/OnReject at most once and followed by OnExit, no OnExit while retrievable).", "§4 C04", ""),
+ "C05": ("0..2 earlier Sets of k (dropped when the 1..4-item buffer is full), optional activity on another key, Del(k), Wait, Get(k) twice: miss and exactly-once release are asserted under every interleaving with the applier (DPOR without pre-emption bound).", "§4 C05", ""),
+ "C06": ("The clauses of the statement (new key visible after Wait and staying retrievable, overwrite of a resident key visible immediately, Wait drains the buffer, policy fast path admits without victims from an arbitrary state) are checked with symbolic costs under every interleaving of one client with the applier.", "§4 C06", "A full reference-model comparison of arbitrary sequences is not built; only the stated clauses are checked."),
+ "C07": ("Read paths (get, IterValues) are executed on an entry with an arbitrary expiration against an arbitrary clock; SetWithTTL/GetTTL/Get are run on the real cache for a grid of ttl values (all negative values, 0, 1ns .. 1h) with symbolic clock instants and every applier interleaving: attached expiration = call time + ttl, GetTTL <= ttl, hit before / miss after the instant.", "§4 C07", ""),
+ "C08": ("For pairs of public calls on two client goroutines (same key / different keys) every interleaving at synchronisation points within a pre-emption bound is executed with a vector-clock happens-before race detector on every memory access, panic paths and deadlock/termination detection.", "§4 C08", "Two goroutines with one call each only; 3..64 goroutines and wall-clock 'bounded time' are outside what this technique can state."),
+ "C09": ("defaultPolicy.Add from an ARBITRARY policy state with ALL frequency assignments (uninterpreted estimate function) and every enumeration order of the sampling map: fits => admitted without victims; every victim was resident, is removed, has estimate <= the newcomer's and (<= 5 residents) is a least-frequent resident; rejection only if colder than every remaining candidate / too big / already resident; never rejected when at least as frequent as all. The applier step reports rejections via OnReject+OnExit and victims via OnEvict.", "§4 C09", ""),
+ "C10": ("Bounded histories on 80/96-byte pages (4-5 keys per node): a prefix of symbolic Sets in ascending/descending/free order builds 2-3-level trees, then symbolic Set/DeleteBelow/IterateKV-rewrite/Reset; the solver chooses key order and values; Get(probe) for an arbitrary probe and the exact IterateKV visit set are compared with an association-list model.", "§4 C10", ""),
+ "C11": ("Histories of Write/WriteSlice/SliceAllocate/Allocate/AllocateOffset/Reset with SYMBOLIC lengths crossing the capacity and the doubling are executed on SMT-array memory and Bytes() is compared with the model at an arbitrary position; slice iteration with empty slices, WithMaxSize with a symbolic limit and SortSlice on small inputs are checked.", "§4 C11", "mmap mode and the calloc->mmap switch are NOT covered (no file model was built)."),
+ "C12": ("One Allocate of arbitrary size from an ARBITRARY allocator state (symbolic chunk lengths, bump pointer anywhere) establishes the inductive step for disjointness (result exactly sized, inside one chunk, above the bump position, bump pointer left behind it) and termination; Reset/replay, TrimTo+Reset, AllocateAligned (arbitrary base address, dirty chunk) and Copy are checked; 2-3 goroutines racing at a chunk overflow are explored with atomics as scheduling points and race detection.", "§4 C12", ""),
+ "C13": ("After bursts with evictions, rejections, drops, deletes and Clear, at the quiescent point every key is in the store iff the policy charges for it, IterValues visits each resident exactly once and stops when asked, and after Clear nothing is enumerated and RemainingCost = MaxCost; every interleaving with the applier.", "§4 C13", ""),
+ "C14": ("Bucket arithmetic and the expiry index are checked for arbitrary instants; a TTL entry is re-written (no TTL / later TTL) or deleted at EVERY position relative to the sweep and applied before or after sweeps at arbitrary instants (ticker as nondeterministic event, clock symbolic): re-written entries survive unreported, covered expired entries are swept, swept entries were expired and are released and reported once.", "§4 C14", ""),
+ "C15": ("Pre-state plus bursts leaving buffered new items, overwrites and tombstones, then Clear or Close under every interleaving: empty store/policy, capacity and metrics reset, every accepted value released once, fresh behaviour after Clear; inert no-ops, repeated Close/Clear and no live cache goroutine after Close; a goroutine blocked in Wait during Clear is released.", "§4 C15", ""),
+ "C16": ("C10-style histories with page recycling, then a clean close-and-reopen performed white-box: a second Tree over a byte-for-byte copy of the data region (with a trailing partial page) reconstructed by the real reinit; Get(probe), statistics, frontier and free-list head are compared, then further symbolic Sets on both trees must keep them identical (recycled pages reused, never handed out twice).", "§4 C16", "The file layer (os, mmap, Truncate) is not encoded; the reopen acts on the bytes."),
+ "C17": ("Metrics.add/get/Clear are executed on the real 256-cell layout for every metric type and an arbitrary hash; bursts with evictions, rejections, drops, deletes and cost-raising/lowering overwrites check the five conservation laws at the quiescent point under every interleaving with the applier.", "§4 C17", ""),
  "C18": ("Every operation of the counter row, the count-min sketch and the tinyLFU filter is executed symbolically from an ARBITRARY state (all counter bytes, seeds, doorkeeper bits, hashes symbolic) and the per-operation facts of the statement (saturation, no under-count, monotonicity, halving, reset-at-threshold, clear, power-of-two sizing) are discharged by the solver for all values; histories of any length follow by induction.", "§4 C18", ""),
+ "C19": ("Add/Has/AddIfNotHas/Clear/Set/IsSet are executed from a filter with ARBITRARY bit contents (SMT array), arbitrary hashes and 1..8 probe locations; the JSON round trip (codec as identity stub) must preserve parameters, size and Has for every hash; the constructor is run on a grid of configurations.", "§4 C19", ""),
  "C20": ("The real amd64 assembly (parsed from search_amd64.s on every run) and the portable search.go are executed symbolically against Naive for every even length up to the bound, every content and every k, with the memory following the slice unconstrained; Naive itself is checked against the first-key>=k specification.", "§4 C20, §2.8", ""),
 }
 NA_REASON = {}
